@@ -247,6 +247,7 @@ pub fn gen_conn(r: &mut Rng, p: &Profile, k: u64) -> ConnScript {
         streams,
         close,
         rebinds: vec![],
+        path_delays_us: vec![],
         keep_alive: r.chance(1, 8),
     }
 }
@@ -706,6 +707,19 @@ pub fn plan_for(property: &str, seed: u64) -> Plan {
             for c in plan.conns.iter_mut() {
                 c.rebinds.clear();
             }
+            // a third of the plans: the client is rebound onto a path with a very different
+            // latency while data is in flight (several paths, several RTT estimators)
+            if r.chance(1, 3) {
+                plan.cfg.server.limits.migration = true;
+                plan.cfg.client.limits.migration = true;
+                for c in plan.conns.iter_mut() {
+                    let n = 1usize;
+                    let mut t: Vec<u64> = (0..n).map(|_| r.pick(&[300_000u64, 1_000_000, 2_500_000, 6_000_000]) + r.below(500_000)).collect();
+                    t.sort();
+                    c.rebinds = t;
+                    c.path_delays_us = (0..=n).map(|_| r.pick(&[0u64, 0, 5_000, 40_000, 150_000, 400_000])).collect();
+                }
+            }
             // outages long enough for several consecutive PTO expiries
             let end = r.pick(&[2_000_000u64, 10_000_000, 40_000_000]);
             for _ in 0..r.below(3) {
@@ -724,6 +738,22 @@ pub fn plan_for(property: &str, seed: u64) -> Plan {
                         key: r.next(),
                     },
                     action: Action::Drop,
+                });
+            }
+            // bursts of CE marks (every packet of one direction for a while): several ACK frames
+            // within one round trip report a growing CE count
+            for _ in 0..r.below(3) {
+                let from = r.below(end);
+                let len = r.pick(&[20_000u64, 100_000, 500_000, 2_000_000]);
+                plan.faults.push(Fault {
+                    when: When::Window {
+                        dir: if r.chance(1, 2) { Some(Dir::C2S) } else { Some(Dir::S2C) },
+                        from_us: from,
+                        to_us: (from + len).min(end),
+                        permille: r.pick(&[300u32, 1000]),
+                        key: r.next(),
+                    },
+                    action: Action::EcnCe,
                 });
             }
             plan.faults_end_us = Some(end);
